@@ -63,6 +63,26 @@ type WS struct {
 	Previous map[string]string `json:"previous,omitempty"`
 	// Remote: configure the S3 remote cache (bucket "bkt", prefix "pfx"); the endpoint comes from the environment
 	Remote bool `json:"remote,omitempty"`
+	// Spell: how labels are written in the BUILD files (rendering only; the abstract workspace keeps absolute labels):
+	// bit 0: a dependency in the same package is written ":name"; bit 1: so is an alias' "actual";
+	// bit 2: //pkg:name with name == last segment of pkg is written "//pkg"
+	Spell int `json:"spell,omitempty"`
+}
+
+func (w WS) spellLabel(fromPkg, l string, relBit int) string {
+	rest := strings.TrimPrefix(l, "//")
+	i := strings.LastIndex(rest, ":")
+	if i < 0 {
+		return l
+	}
+	pkg, name := rest[:i], rest[i+1:]
+	if w.Spell&relBit != 0 && pkg == fromPkg {
+		return ":" + name
+	}
+	if w.Spell&4 != 0 && pkg != "" && path.Base(pkg) == name {
+		return "//" + pkg
+	}
+	return l
 }
 
 func Label(pkg, name string) string { return "//" + pkg + ":" + name }
@@ -568,7 +588,11 @@ func (w WS) Render() map[string]string {
 	}
 	for i := range w.Targets {
 		t := &w.Targets[i]
-		bt := buildTarget{Name: t.Name, Command: w.Command(t), Dependencies: t.Deps, Inputs: t.Inputs, Excludes: t.Excludes, Outputs: t.OutputDefs(), Bin: t.Bin,
+		var spelled []string
+		for _, d := range t.Deps {
+			spelled = append(spelled, w.spellLabel(t.Pkg, d, 1))
+		}
+		bt := buildTarget{Name: t.Name, Command: w.Command(t), Dependencies: spelled, Inputs: t.Inputs, Excludes: t.Excludes, Outputs: t.OutputDefs(), Bin: t.Bin,
 			Tags: t.Tags, Fingerprint: t.Fingerprint, Timeout: t.Timeout}
 		for _, c := range t.Checks {
 			m := map[string]string{"command": CheckCommand(c)}
@@ -580,7 +604,7 @@ func (w WS) Render() map[string]string {
 		get(t.Pkg).Targets = append(get(t.Pkg).Targets, bt)
 	}
 	for _, a := range w.Aliases {
-		get(a.Pkg).Aliases = append(get(a.Pkg).Aliases, map[string]string{"name": a.Name, "actual": a.Actual})
+		get(a.Pkg).Aliases = append(get(a.Pkg).Aliases, map[string]string{"name": a.Name, "actual": w.spellLabel(a.Pkg, a.Actual, 2)})
 	}
 	for p, f := range pkgs {
 		b, _ := json.MarshalIndent(f, "", " ")
